@@ -268,4 +268,14 @@ impl<T: Config> SpectatorSession<T> {
             self.event_queue.pop_front();
         }
     }
+
+    /// Verification hook: sizes of the internal buffers of the session and its host endpoint.
+    #[cfg(feature = "verif-hooks")]
+    pub fn verif_sizes(&self) -> crate::verif_hooks::SessionSizes {
+        crate::verif_hooks::SessionSizes {
+            event_queue: self.event_queue.len(),
+            remotes: vec![self.host.verif_sizes()],
+            ..Default::default()
+        }
+    }
 }
